@@ -15,17 +15,18 @@ def sh(cmd, cwd=None, timeout=3000, env=None):
 def main():
     args = [a for a in sys.argv[1:] if not a.startswith("--")]
     use_repo = "--repo" in sys.argv
+    kind = "r" if "--refactors" in sys.argv else ("n" if "--round2" in sys.argv else "m")
     pid = args[0]
     sd = "/verif/seeded/%s" % pid
-    ks = args[1:] or sorted(d[1:] for d in os.listdir(sd) if d.startswith("m") and os.path.exists("%s/%s/patch.diff" % (sd, d)))
+    ks = args[1:] or sorted(d[1:] for d in os.listdir(sd) if d.startswith(kind) and d[1:].isdigit() and os.path.exists("%s/%s/patch.diff" % (sd, d)))
     results = {}
-    rp = os.path.join(sd, "results.json")
+    rp = os.path.join(sd, {"m": "results.json", "r": "refactors.json", "n": "results_round2.json"}[kind])
     if os.path.exists(rp):
         results = json.load(open(rp))
     if use_repo:
         repo, verif, env = "/repo", "/verif", {}
     else:
-        sb = "/tmp/sbx-seed-%s" % pid
+        sb = "/tmp/sbx-seed-%s%s" % (pid, kind)
         if not os.path.exists(sb):
             rc, out = sh("/verif/tools/sandbox.sh create %s" % sb)
             print(out.strip())
@@ -37,10 +38,10 @@ def main():
         for k in ["base"] + ks:
             sh("git checkout -- . && git clean -fdq -e target", repo)
             if k != "base":
-                rc, out = sh("git apply %s/m%s/patch.diff" % (sd, k), repo)
+                rc, out = sh("git apply %s/%s%s/patch.diff" % (sd, kind, k), repo)
                 if rc != 0:
                     results[k] = {"applied": False, "out": out[-300:]}
-                    print(pid, "m" + k, "patch does not apply:", out[-200:])
+                    print(pid, kind + k, "patch does not apply:", out[-200:])
                     continue
             t0 = time.time()
             rc, out = sh("tools/vp check %s --tier quick" % pid, cwd=verif, env=env)
@@ -55,7 +56,7 @@ def main():
     finally:
         sh("git checkout -- . && git clean -fdq -e target", repo)
         if not use_repo:
-            sh("/verif/tools/sandbox.sh remove /tmp/sbx-seed-%s" % pid)
+            sh("/verif/tools/sandbox.sh remove /tmp/sbx-seed-%s%s" % (pid, kind))
     json.dump(results, open(rp, "w"), indent=1)
 
 main()
